@@ -14,7 +14,7 @@ RULE = ("every input of C01's spaces (exhaustive token sequences, generated scri
         "Parser.parse accepts, minus inputs filling one optional tag slot twice, plus valid scripts of 64 KiB ... 4 MiB (sizes on and around "
         "powers of two, padded with comments or blank lines) through parse and parse_file; oracle: harness-side walk of Parser.result "
         "== tree of an independent RFC 5228 section 8.2 generic-grammar parser (names, flat raw argument sequence, tests, "
-        "children, order). Non-trivial = accepted with >= 2 commands or >= 1 argument; distinct by source text.")
+        "children, order); every third accepted input again on a Parser that parsed another script first; on reference-VALID inputs each tag has a recorded parameter exactly when its table slot carries one. Non-trivial = accepted with >= 2 commands or >= 1 argument; distinct by source text.")
 
 
 def count_nodes(nodes):
